@@ -41,6 +41,9 @@ func (p *Path) statusCode(err Value, depth int) *Term {
 }
 
 func init() {
+	globalModels[vfsPkg+".Default"] = func(p *Path, t types.Type) Value {
+		return Iface{T: types.NewPointer(p.eng.namedType(vfsPkg, "MemFS")), V: p.newMemFS(false)}
+	}
 	reg(statusPkg+".Error", func(p *Path, _ *frame, a []Value) Value {
 		msg, _ := p.concreteString(a[1])
 		c := p.asTerm(a[0], "status.Error code")
